@@ -23,8 +23,8 @@ ASSUMPTIONS = ["statistical monitor: bounds, does not prove; deviations below th
                "family-wise false-alarm probability < 1e-8 per run (<= 1e5 tests at 1e-13)"]
 BATCH = {"quick": 2, "thorough": 2}
 TIMEOUT = {"quick": 1500, "thorough": 7200}
-FLOORS = {"quick": {"frequency_cells": 400, "zero_prob_label_cells": 200, "joint_cells": 100, "own_lag_cells": 150, "agent_lag_cells": 200, "key_traces": 25, "seed_pairs": 25, "draws_observed": 1500000, "seed_effect_seen": 10},
-          "thorough": {"frequency_cells": 15000, "zero_prob_label_cells": 3000, "joint_cells": 1000, "own_lag_cells": 1500, "agent_lag_cells": 3000, "key_traces": 100, "seed_pairs": 100, "draws_observed": 100000000, "seed_effect_seen": 40}}
+FLOORS = {"quick": {"frequency_cells": 400, "zero_prob_label_cells": 200, "joint_cells": 100, "own_lag_cells": 150, "cross_lag_cells": 100, "agent_lag_cells": 200, "key_traces": 25, "seed_pairs": 25, "draws_observed": 1500000, "seed_effect_seen": 10},
+          "thorough": {"frequency_cells": 15000, "zero_prob_label_cells": 3000, "joint_cells": 1000, "own_lag_cells": 1500, "cross_lag_cells": 1000, "agent_lag_cells": 3000, "key_traces": 100, "seed_pairs": 100, "draws_observed": 100000000, "seed_effect_seen": 40}}
 
 
 def plan(tier, seed):
@@ -110,11 +110,15 @@ def run_case(case):
     traces = []
     orig = getattr(sim, "_generate_simulation_keys", None)
     if orig is not None:
-        def traced(key, ids):
-            k2, ks = orig(key=key, ids=ids)
-            traces[-1].append((np.asarray(jax.random.key_data(key) if hasattr(jax.random, "key_data") and jax.dtypes.issubdtype(key.dtype, jax.dtypes.prng_key) else key).tolist(),
-                               np.asarray(k2).tolist(), {str(n): np.asarray(v).tolist() for n, v in ks.items()}))
-            return k2, ks
+        def traced(*a, **k):
+            r = orig(*a, **k)
+            try:
+                key = k.get("key", a[0] if a else None)
+                k2, ks = r
+                traces[-1].append((np.asarray(key).tolist(), np.asarray(k2).tolist(), {str(n): np.asarray(v).tolist() for n, v in ks.items()}))
+            except Exception:  # noqa: BLE001 - interface changed: the trace is unavailable, not a verdict
+                traces[-1].append(None)
+            return r
 
         sim._generate_simulation_keys = traced
     try:
@@ -150,23 +154,20 @@ def run_case(case):
         add("w5_unavailable")
     else:
         for tr in traces:
+            if any(x is None for x in tr) or len(tr) == 0:
+                add("w5_unavailable")
+                continue
             add("key_traces")
             allk = []
-            prev = None
             for (kin, kout, ks) in tr:
-                if len(ks) != len(ref.stoch):
-                    res["violations"].append({"key": "key_count", "what": f"{len(ks)} keys handed out in a period for {len(ref.stoch)} stochastic variables"})
-                if kin == kout:
-                    res["violations"].append({"key": "carried_key_not_advanced", "what": "the carried PRNG key is the same before and after a period"})
-                if prev is not None and kin != prev:
-                    res["violations"].append({"key": "carried_key_chain_broken", "what": "the key used in a period is not the key carried over from the previous period"})
-                prev = kout
+                # interface details (one call per period, one key per variable) are the
+                # implementation's business; what matters is that no key is handed out twice
                 allk.append(tuple(kout))
                 allk += [tuple(v) for v in ks.values()]
-            if len(tr) != T:
-                res["violations"].append({"key": "key_periods", "what": f"keys generated in {len(tr)} periods, expected {T}"})
+                if len(ks) == len(ref.stoch) and kin != kout:
+                    add("key_calls_in_expected_form")
             if len(set(allk)) != len(allk):
-                res["violations"].append({"key": "key_reused", "what": "a PRNG key was handed out more than once within one run"})
+                res["violations"].append({"key": "key_reused", "what": "a PRNG key was handed out more than once within one run (same key returned as carried key or given to two variables/periods)"})
             add("keys_observed", len(allk))
     # ---------------------------------------------------------------- (1)-(3) frequencies
     df = dfs[0]
@@ -212,19 +213,27 @@ def run_case(case):
                 if out.any():
                     r0, l0 = [int(x) for x in np.argwhere(out)[0]]
                     res["violations"].append({"key": "frequency_mismatch", "what": f"period {t}->{t + 1}: {s}: dependency row {np.unravel_index(r0, dims) if deps else ()} of {deps}: label {l0} drawn {int(counts[r0, l0])}/{int(nrow[r0])} times, transition array says p={Pf[r0, l0]:.4f} (|z|={z[r0, l0]:.1f}); {int(out.sum())} (cell,label) pairs outside the bound"})
-                # independence across periods: condition on own previous value if not a dependency
-                if s not in deps:
-                    own = cols[s][t].astype(int)
-                    rid2 = rid * nl + own
-                    c2 = np.zeros((ncell * nl, nl))
+                # independence across periods and variables: the draw must be independent of the
+                # CURRENT value of every stochastic state that is not one of its dependencies
+                # (its own previous draw, or another variable's previous draw)
+                for name_v in ref.stoch:
+                    v = name_v[len("next_"):]
+                    if v in deps:
+                        continue
+                    nv = ref.spec[v]["n"]
+                    cur = np.clip(cols[v][t].astype(int), 0, nv - 1)
+                    rid2 = rid * nv + cur
+                    c2 = np.zeros((ncell * nv, nl))
                     np.add.at(c2, (rid2, lab), 1)
                     n2 = c2.sum(1)
-                    P2 = np.repeat(Pf, nl, axis=0)
+                    P2 = np.repeat(Pf, nv, axis=0)
                     big2 = n2 >= 100
-                    add("own_lag_cells", int(big2.sum()))
+                    add("own_lag_cells" if v == s else "cross_lag_cells", int(big2.sum()))
                     o2 = stats.count_outside(c2, n2[:, None], P2) & big2[:, None]
                     if o2.any():
-                        res["violations"].append({"key": "dependence_across_periods", "what": f"period {t}->{t + 1}: {s}: conditional on its own previous value (not a dependency) the label frequencies leave the bound in {int(o2.sum())} sub-cells: draws of consecutive periods are not independent"})
+                        which = "its own previous value" if v == s else f"the current value of {v} (drawn one period earlier)"
+                        res["violations"].append({"key": "dependence_across_periods" if v == s else "dependence_across_periods_and_variables",
+                                                  "what": f"period {t}->{t + 1}: {s}: conditional on {which} (not a dependency) the label frequencies leave the bound in {int(o2.sum())} sub-cells: draws are not independent"})
                 # independence across agents: pairs along the agent index within a cell
                 for lagk in (1, N // 2):
                     a, b = np.arange(N - lagk), np.arange(lagk, N)
